@@ -54,12 +54,17 @@ def main():
         detected, results = [], {}
         if meta["confirmed"]:
             env2 = dict(os.environ, MATHY_REPO=wt)
-            for c in checks:
-                p = sh(f"cd {VERIF} && /venv/bin/python check.py {c} --tier quick", env=env2, timeout=3000)
-                lines = [l for l in p.stdout.splitlines() if l.startswith(("VIOLATION", "OK ", "HARNESS", "KNOWN"))]
-                results[c] = {"exit": p.returncode, "lines": [l[:300] for l in lines[:6]]}
-                if p.returncode == 1:
-                    detected.append(c)
+            from concurrent.futures import ThreadPoolExecutor
+
+            def run(c):
+                return c, sh(f"cd {VERIF} && /venv/bin/python check.py {c} --tier quick", env=env2, timeout=3000)
+
+            with ThreadPoolExecutor(int(os.environ.get("SEED_PAR", "6"))) as ex:
+                for c, p in ex.map(run, checks):
+                    lines = [l for l in p.stdout.splitlines() if l.startswith(("VIOLATION", "OK ", "HARNESS", "KNOWN"))]
+                    results[c] = {"exit": p.returncode, "lines": [l[:300] for l in lines[:6]]}
+                    if p.returncode == 1:
+                        detected.append(c)
             meta["ran"].append("quick checks with MATHY_REPO=<patched scratch worktree>: " + ",".join(checks))
         meta["detected_by"] = detected
         meta["check_results"] = results
@@ -77,6 +82,16 @@ def main():
     except OSError:
         pass
     meta["needs_to_manifest"] = notes[:1500]
+    try:
+        prev = json.load(open(os.path.join(dest, "meta.json")))
+        for c, r in prev.get("check_results", {}).items():
+            if c not in meta.get("check_results", {}):
+                meta.setdefault("check_results", {})[c] = dict(r, from_earlier_run=prev.get("validated_at"))
+                if r.get("exit") == 1 and not any("no-failing-input-found" in l and "unproved" in l for l in r.get("lines", [])):
+                    meta["detected_by"].append(c)
+        meta["detected_by"] = sorted(set(meta["detected_by"]))
+    except (OSError, ValueError):
+        pass
     json.dump(meta, open(os.path.join(dest, "meta.json"), "w"), indent=1)
     print(json.dumps({k: meta[k] for k in ("id", "confirmed", "detected_by", "test_suite_with_change", "demo_exit_changed", "demo_exit_unchanged")}))
 
